@@ -21,6 +21,8 @@ def menu(nm):
     out += [[CL], [bm(0)], [sm(0)]]
     # a sweep: two resting sells at 150 lifted by one buy of volume 2 (one round, two fills, price moves by 2 x rate)
     out += [[sl(0, 150), sl(0, 150)], [bl(0, 150, 2)], [sl(0, 150, 2)]]
+    # two orders in one batch, the first of which can trade through a halt line
+    out += [[sl(0, 125), sl(0, 110)], [bl(0, 125), bl(0, 150)]]
     return out
 
 
@@ -77,7 +79,7 @@ def scenarios(tier):
         for nm in (1, 2):
             mn = menu(nm)
             k = len(mn)
-            sweep_sell, sweep_buy, sell2 = k - 3, k - 2, k - 1
+            sweep_sell, sweep_buy, sell2 = k - 5, k - 4, k - 3
             pa = [0, 0, sweep_buy] + [0] * L + [3, 0, 0, 0]
             pb = [0, sweep_sell, 0] + [0] * L + [4, 0, 0, 0]
             markets = [dict(name="M%d" % i) for i in range(nm)]
